@@ -380,6 +380,9 @@ class Call:
             out.append("weights_container:" + container_kind(as_tuple(self.raw_weights)[0]))
             if np.shape(as_tuple(self.raw_weights)[0]) != np.shape(as_tuple(self.raw_data)[0]):
                 out.append("weights_shape_differs_from_data")
+        if self.npoints > 100000:
+            out.append("more_than_100000_points")
+            out.append("more_than_100000_points:count_%d" % self.npoints)
         for name in ("spacing", "shape", "region"):
             value = getattr(est, name, None)
             if value is not None:
@@ -903,3 +906,45 @@ def integer_friendly(rng):
     kwargs["center_coordinates"] = bool(rng.random() < 0.5)
     kwargs["drop_coords"] = bool(rng.random() < 0.5)
     return np.ascontiguousarray(east), np.ascontiguousarray(north), kwargs
+
+
+# --------------------------------------------------------------------------
+# large inputs (branches that exist only above a size threshold)
+# --------------------------------------------------------------------------
+LARGE_COUNTS = [130000, 230000, 262145]  # more than 100 000 points, never a multiple of 100 000
+
+
+def large_cloud(rng, n):
+    """n points: 10 % spread thinly over the unit box, 90 % in a dense cluster (blocks of very different populations, singletons, empty blocks)."""
+    scale = float(10 ** rng.uniform(0, 4))
+    k = int(0.1 * n)
+    east = np.concatenate([rng.uniform(0, 1, k), np.clip(rng.normal(rng.choice([0.3, 0.7]), 0.05, n - k), 0, 1)])
+    north = np.concatenate([rng.uniform(0, 1, k), np.clip(rng.normal(rng.choice([0.35, 0.6]), 0.08, n - k), 0, 1)])
+    perm = rng.permutation(n)  # dense and sparse parts interleaved, the tail of the input is nothing special
+    offset = scale * rng.choice([0.0, 10.0]) * rng.uniform(-1, 1, 2)
+    return np.ascontiguousarray(east[perm] * scale + offset[0]), np.ascontiguousarray(north[perm] * scale * rng.uniform(0.5, 1.0) + offset[1])
+
+
+def large_blocks(rng, east, north, n_blocks):
+    """About n_blocks blocks by shape or by a (north, east) spacing; region inferred or slightly padded."""
+    rows = int(max(2, np.sqrt(n_blocks) * rng.uniform(0.7, 1.4)))
+    cols = int(max(2, n_blocks / rows))
+    kwargs = {}
+    width, height = np.ptp(east), np.ptp(north)
+    if rng.random() < 0.4:
+        kwargs["region"] = [float(east.min() - 0.02 * width), float(east.max() + 0.03 * width), float(north.min()), float(north.max() + 0.05 * height)]
+        width, height = kwargs["region"][1] - kwargs["region"][0], kwargs["region"][3] - kwargs["region"][2]
+    if rng.random() < 0.5:
+        kwargs["shape"] = (rows, cols)
+    else:
+        kwargs["spacing"] = (float(height / (rows + rng.uniform(-0.3, 0.3))), float(width / (cols + rng.uniform(-0.3, 0.3))))
+    kwargs["center_coordinates"] = bool(rng.random() < 0.5)
+    return kwargs
+
+
+def large_field(rng, east, north, amplitude=100.0):
+    """Non-constant everywhere (the last points of the input included): smooth part plus noise of comparable size."""
+    x = (east - east.min()) / (np.ptp(east) or 1.0)
+    y = (north - north.min()) / (np.ptp(north) or 1.0)
+    a, b, c = rng.uniform(3, 9, 3)
+    return amplitude * (np.sin(a * x) * np.cos(b * y) + 0.3 * x * y + rng.normal(size=x.size) * (0.2 + 0.8 * np.sin(c * x) ** 2))
